@@ -201,7 +201,10 @@ class World:
                 m["value"] += 3
             self.cache["entries"][path] = "f" * 32
         elif kind == "move" and path in files:
-            others = [p for p in PATHS if p != path and self.files.get(p) != self.files.get(path)]
+            # only to a path of the same language: an entry whose language contradicts its own path cannot stem from any scan,
+            # and would be indistinguishable from a valid entry once a file with that content appears there
+            ext = path.rsplit(".", 1)[-1]
+            others = [p for p in PATHS if p != path and p.rsplit(".", 1)[-1] == ext and self.files.get(p) != self.files.get(path)]
             if others:
                 dst = others[0]
                 files[dst] = files.pop(path)
